@@ -261,7 +261,7 @@ const PARTIALS: [(&str, &str); 5] = [
     ("boom", "pre{% yield %}{{ undefined_in_partial }}post"),
 ];
 
-const TEMPLATES: [&str; 7] = [
+const TEMPLATES: [&str; 8] = [
     // 0: includes the lazily compiled partial twice
     "A{% yield %}{% include 'p' %}{% yield %}{% increment c %}{% yield %}{% include 'p' %}",
     // 1: broken partial
@@ -276,6 +276,8 @@ const TEMPLATES: [&str; 7] = [
     "E{% yield %}{% include name %}",
     // 6: minimal
     "{% include 'm' %}{% yield %}{% include 'm' %}",
+    // 7: per-render data and bindings (rendered concurrently with different data)
+    "{{ who }}{% yield %}{% assign x = who %}{% yield %}{{ x }}{% capture c %}{{ who }}{% yield %}{% cycle 'p', 'q' %}{% endcapture %}{{ c }}{% increment n %}{% for i in list %}{% yield %}{{ i }}{{ who }}{% endfor %}",
 ];
 
 struct World {
@@ -283,6 +285,7 @@ struct World {
     templates: Vec<liquid::Template>,
     store: Box<dyn liquid_core::runtime::PartialStore + Send + Sync>,
     data: liquid::Object,
+    data_b: liquid::Object,
 }
 
 fn source() -> Src {
@@ -312,12 +315,19 @@ fn world() -> World {
     let store = liquid::partials::LazyCompiler::new(source()).compile(language()).expect("store compiles");
     let mut data = liquid::Object::new();
     data.insert("name".into(), liquid::model::Value::scalar("missing"));
-    World { parser, templates, store, data }
+    data.insert("who".into(), liquid::model::Value::scalar("A"));
+    data.insert("list".into(), liquid::model::Value::Array(vec![liquid::model::Value::scalar(1i64), liquid::model::Value::scalar(2i64)]));
+    let mut data_b = liquid::Object::new();
+    data_b.insert("who".into(), liquid::model::Value::scalar("B"));
+    data_b.insert("list".into(), liquid::model::Value::Array(vec![liquid::model::Value::scalar("x")]));
+    World { parser, templates, store, data, data_b }
 }
 
 #[derive(Clone, Copy, Debug, PartialEq)]
 enum Op {
     Render(usize),
+    /// render with the second data object
+    RenderB(usize),
     /// parse the template text again with the shared parser, then render the fresh copy
     ParseRender(usize),
     /// parse only (also text that does not parse)
@@ -342,6 +352,10 @@ fn render_store_partial(w: &World, r: Arc<dyn liquid_core::Renderable>) -> Strin
 fn call(w: &World, op: Op) -> String {
     let r = std::panic::catch_unwind(std::panic::AssertUnwindSafe(|| match op {
         Op::Render(i) => match w.templates[i].render(&w.data) {
+            Ok(s) => format!("ok:{s}"),
+            Err(e) => format!("err:{}", first_line(&e.to_string())),
+        },
+        Op::RenderB(i) => match w.templates[i].render(&w.data_b) {
             Ok(s) => format!("ok:{s}"),
             Err(e) => format!("err:{}", first_line(&e.to_string())),
         },
@@ -382,11 +396,12 @@ struct Harness {
 
 fn harnesses() -> Vec<Harness> {
     vec![
-        Harness { name: "H0", what: "two threads, one call each, smallest template touching a not-yet-compiled partial (explored without a preemption bound)", plan: vec![vec![Op::Render(6)], vec![Op::Render(6)]] },
+        Harness { name: "H0", what: "two threads, one call each, smallest template touching a not-yet-compiled partial (the thorough tier explores it without a preemption bound)", plan: vec![vec![Op::Render(6)], vec![Op::Render(6)]] },
         Harness { name: "H1", what: "two threads render the same template including the same not-yet-compiled partial", plan: vec![vec![Op::Render(0)], vec![Op::Render(0)]] },
         Harness { name: "H2", what: "a valid and a broken partial first-touched by different threads, then swapped", plan: vec![vec![Op::Render(0), Op::Render(1)], vec![Op::Render(1), Op::Render(0)]] },
         Harness { name: "H3", what: "renders with cycle/increment/ifchanged/capture/break while another thread parses with the same parser", plan: vec![vec![Op::Render(2), Op::Render(3)], vec![Op::ParseRender(2), Op::Parse("{% if %}{{ !! }}")]] },
         Harness { name: "H4", what: "three threads, one partial, through get, try_get and include", plan: vec![vec![Op::StoreGet("p"), Op::StoreTryGet("bad")], vec![Op::StoreTryGet("p"), Op::StoreGet("bad")], vec![Op::StoreGet("q")]] },
+        Harness { name: "H6", what: "one template rendered concurrently with two different data objects (bindings, capture, cycle, counters, loops must not cross over)", plan: vec![vec![Op::Render(7)], vec![Op::RenderB(7)]] },
         Harness { name: "H5", what: "a render that fails midway (partial error, missing partial) while another renders", plan: vec![vec![Op::Render(4)], vec![Op::Render(3)], vec![Op::Render(5)]] },
     ]
 }
@@ -663,15 +678,15 @@ fn main() {
     // counterexample found has the fewest preemptions
     let tasks: Vec<(usize, usize, bool)> = if tier.thorough() {
         let mut t = vec![(0, 0, true)];
-        for (hi, maxb) in [(1usize, 5usize), (2, 4), (3, 4), (4, 3), (5, 3)] {
+        for (hi, maxb) in [(1usize, 5usize), (2, 4), (3, 4), (4, 3), (5, 4), (6, 3)] {
             for b in 0..=maxb {
                 t.push((hi, b, false));
             }
         }
         t
     } else {
-        let mut t = vec![(0, 0, true)];
-        for (hi, maxb) in [(1usize, 2usize), (2, 2), (3, 2), (4, 1), (5, 1)] {
+        let mut t = vec![];
+        for (hi, maxb) in [(0usize, 3usize), (1usize, 2usize), (2, 2), (3, 2), (4, 1), (5, 2), (6, 1)] {
             for b in 0..=maxb {
                 t.push((hi, b, false));
             }
